@@ -51,11 +51,15 @@ theorem InvK.tryAdd {k : Cfg} {s : St} {p : Nat} {el : Int} (h : InvK s) : InvK 
   unfold OtelVerif.C02.tryAdd
   split
   · split
-    · exact h.congr rfl rfl rfl rfl
+    · split
+      · exact h.congr rfl rfl rfl rfl
+      · exact h.congr rfl rfl rfl rfl
     · exact h.congr rfl rfl rfl rfl
   · split
     · exact h.congr rfl rfl rfl rfl
     · exact h.push (p, el) rfl rfl rfl rfl
+
+theorem InvK.condBroadcast {s : St} (h : InvK s) : InvK (condBroadcast s) := h.congr rfl rfl rfl rfl
 
 theorem InvK.ptryAdd {k : Cfg} {s : St} {p : Nat} {el : Int} (h : InvK s) : InvK (ptryAdd k s p el) := by
   unfold OtelVerif.C02.ptryAdd
@@ -78,8 +82,7 @@ theorem InvK.ppop {s s' : St} (h : InvK s) (hp : ppop s = some s') :
   obtain ⟨s1, h1, h2 | ⟨_, h2⟩⟩ := ppop_some hp
   · rw [h2]; exact h.pop h1
   · obtain ⟨a, b, c, d⟩ := h.pop h1
-    obtain ⟨e1, e2, e3, e4⟩ := condSignal_cons { s1 with size := 0 }
-    rw [h2, e1, e2, e3, e4]
+    rw [h2]
     exact ⟨a, b, c, d⟩
 
 /-- shared tail of `Read`: fresh consumer -/
@@ -195,7 +198,7 @@ theorem InvK.step {k : Cfg} {s s' : St} {l : Label} (h : InvK s) (hf : fire k s 
       unfold finish
       have h0 : InvK { s with size := s.size - el, inflight := s.inflight.filter (fun x => x.1 != id),
                               finished := s.finished ++ [id], outcomes := s.outcomes ++ [(id, e)] } := h.congr rfl rfl rfl rfl
-      have h1 := h0.condSignal
+      have h1 := h0.condBroadcast
       simp only []
       split
       · exact h1.congr rfl rfl rfl rfl
@@ -268,7 +271,7 @@ theorem InvK.pstep {k : Cfg} {s s' : St} {l : Label} (h : InvK s) (hf : pfire k 
       have h0 : InvK { s with size := (if s.size - el < 0 then 0 else s.size - el),
                               inflight := s.inflight.filter (fun x => x.1 != id),
                               finished := s.finished ++ [id], outcomes := s.outcomes ++ [(id, e)] } := h.congr rfl rfl rfl rfl
-      exact h0.condSignal
+      exact h0.condBroadcast
     · cases hf
   | shutdown => simp only [pfire] at hf; cases hf; exact ⟨Or.inl rfl, fun _ => rfl⟩
 
